@@ -17,6 +17,17 @@ CRS_TABLE = {
     "epsg:32633": (32633, False),
     "epsg:3577": (3577, False),
     "epsg:4283": (4283, True),
+    # unusual axis layouts: both axes pointing the same way (polar stereographic, UPS), northing/easting
+    # order, geographic 3-D, compound (horizontal + vertical)
+    "epsg:3031": (3031, False),
+    "epsg:3413": (3413, False),
+    "epsg:5041": (5041, False),
+    "epsg:5042": (5042, False),
+    "epsg:3976": (3976, False),
+    "epsg:2193": (2193, False),
+    "epsg:4979": (4979, True),
+    "EPSG:9518": (9518, True),
+    "EPSG:7415": (7415, False),
 }
 _crs_objs = {}
 
